@@ -122,7 +122,38 @@ fn chunk_strategy() -> BoxedStrategy<Chunk> {
 
 fn strategy(_: &Ctx) -> BoxedStrategy<Case> {
     (vec((pathref(), 0u16..3000, any::<u64>()), 0..6), vec((datref(), 0u8..5, 0u16..6000, any::<u64>()), 0..3), vec((0u8..5, any::<bool>(), vec(chunk_strategy(), 0..=12)), 1..=3))
-        .prop_map(|(initial, initial_dats, patches)| Case { initial, initial_dats, patches })
+        .prop_map(|(initial, initial_dats, mut patches)| {
+            // a quarter of the whole-file AddFile commands come back later (end of the same or of the last patch) with the
+            // front part of their own content: the file is there already, starts with the new content and is longer
+            let mut echoes: Vec<(usize, Chunk)> = vec![];
+            let last = patches.len() - 1;
+            for (pi, (_, _, chunks)) in patches.iter().enumerate() {
+                for ch in chunks {
+                    if let Chunk::AddFile { p, offset_128: 0, blocks, seed } = ch {
+                        if seed % 4 == 0 && !blocks.is_empty() && blocks.iter().map(|b| b.0 as usize).sum::<usize>() >= 2 {
+                            let mut b = blocks.clone();
+                            let k = 1 + (seed / 4) as usize % b.len();
+                            b.truncate(k);
+                            if k == blocks.len() {
+                                let l = b.last_mut().unwrap();
+                                if l.0 > 1 {
+                                    l.0 /= 2;
+                                } else if b.len() > 1 {
+                                    b.pop();
+                                } else {
+                                    continue;
+                                }
+                            }
+                            echoes.push((if seed % 8 == 0 { pi } else { last }, Chunk::AddFile { p: *p, offset_128: 0, blocks: b, seed: *seed }));
+                        }
+                    }
+                }
+            }
+            for (pi, ch) in echoes {
+                patches[pi].2.push(ch);
+            }
+            Case { initial, initial_dats, patches }
+        })
         .boxed()
 }
 
@@ -140,6 +171,8 @@ fn alphabet() -> Vec<Chunk> {
         Chunk::Header { t: x, index: true, kind: 1, seed: 5 },
         Chunk::AddFile { p, offset_128: 0, blocks: vec![(200, Mode::Raw, 0), (300, Mode::Dynamic, 1)], seed: 6 },
         Chunk::AddFile { p, offset_128: 1, blocks: vec![(100, Mode::Fixed, 2)], seed: 7 },
+        // the first block of the two-block AddFile above alone: the file it leaves is a front part of the other one's
+        Chunk::AddFile { p, offset_128: 0, blocks: vec![(200, Mode::Raw, 0)], seed: 6 },
         Chunk::DeleteFile { p },
         Chunk::MakeDirTree { p: PathRef { dir: 6, name: 1 } },
         Chunk::Target { platform: 2, korea: false },
